@@ -236,15 +236,15 @@ def multilineText {α : Type} (pfx : Parser α) : Parser String :=
   map (fun ls => String.ofList (ls.flatMap fun l => l ++ ['\n']))
     (repeat1 (delimited pfx tillLineEnding lineEndingOrEof))
 
-def kwAccount : List Char := "account".toList
-def kwCommodity : List Char := "commodity".toList
-def kwApply : List Char := "apply".toList
-def kwTag : List Char := "tag".toList
-def kwEnd : List Char := "end".toList
-def kwInclude : List Char := "include".toList
-def kwNote : List Char := "note".toList
-def kwAlias : List Char := "alias".toList
-def kwFormat : List Char := "format".toList
+def kwAccount : List Char := ['a', 'c', 'c', 'o', 'u', 'n', 't']
+def kwCommodity : List Char := ['c', 'o', 'm', 'm', 'o', 'd', 'i', 't', 'y']
+def kwApply : List Char := ['a', 'p', 'p', 'l', 'y']
+def kwTag : List Char := ['t', 'a', 'g']
+def kwEnd : List Char := ['e', 'n', 'd']
+def kwInclude : List Char := ['i', 'n', 'c', 'l', 'u', 'd', 'e']
+def kwNote : List Char := ['n', 'o', 't', 'e']
+def kwAlias : List Char := ['a', 'l', 'i', 'a', 's']
+def kwFormat : List Char := ['f', 'o', 'r', 'm', 'a', 't']
 
 /-- the rest of a directive's first line: `delimited((literal(kw), space1), till_line_ending, line_ending_or_eof)`
 followed by `.trim_end()` -/
